@@ -47,7 +47,14 @@ fn gen_fn_spec(t: &mut Tape, name: &str, tag: &str, deps_pool: &[Deps], mock_act
         }
     }
     let has_gen = params.iter().any(|p| p.vt == VT::Gen);
-    FnSpec { name: name.to_string(), tag: tag.to_string(), vis: String::new(), is_async, deps, bounds, bounds_in_where, params, has_gen, ret_unit: !mock_active && t.chance(1, 6), hold_rc: false }
+    // a result borrowed from the only reference-typed argument (fns without a dependency reference: the elided lifetime of
+    // the output is that argument's, and must still be after a `&self` receiver has been added)
+    let refs: Vec<usize> = params.iter().enumerate().filter(|(_, p)| matches!(p.vt, VT::Str | VT::MutVec | VT::RefI32)).map(|(i, _)| i).collect();
+    let ret_borrow = match (deps, refs.as_slice()) {
+        (Deps::NoDeps | Deps::ValGeneric | Deps::ValImpl, [i]) if !mock_active && params[*i].vt == VT::Str && params[*i].pk == PK::Plain && t.chance(1, 2) => Some(*i),
+        _ => None,
+    };
+    FnSpec { name: name.to_string(), tag: tag.to_string(), vis: String::new(), is_async, deps, bounds, bounds_in_where, params, has_gen, ret_unit: !mock_active && t.chance(1, 6), hold_rc: false, ret_borrow }
 }
 
 fn call_pair(f: &FnSpec, path_prefix: &str, idx: usize, ufcs: Option<&str>) -> String {
@@ -285,6 +292,9 @@ fn fn_nontrivial(f: &FnSpec, classes: &mut Vec<&'static str>) -> bool {
     }
     if f.has_gen {
         classes.push("generic_param");
+    }
+    if f.ret_borrow.is_some() {
+        classes.push(if f.is_async { "result_borrowed_from_the_only_reference_argument_async" } else { "result_borrowed_from_the_only_reference_argument" });
     }
     nt
 }
